@@ -234,8 +234,11 @@ def run(prog, rep, tier):
                 for st in sts:
                     id13_args.append((E_.scalar(st, E_.operand(st, frame, t['args'][0])), st))
         E.call_hook = call_hook
+        E.hooks[f_gray['id']] = GrayResult()
+        E.split_unwrap_or = True
         rets = runner.run_entry(E, body)
         rep.absorb_engine(E, rule='P3-no-panic')
+        gillham_result(rep, E, rets, label, '%s:%s' % (body['file'], body['line']))
         site = '%s:%s' % (body['file'], body['line'])
         casts += [(label,) + ev for ev in E.cast_events]
         # Q path: affine results
@@ -307,3 +310,95 @@ def run(prog, rep, tier):
         rep.check(tlo <= lo and hi <= thi, 'P3-lossy-cast', key, csite,
                   'cast to %s of a value in [%d, %d] changes it (below %s)' % (dty, lo, hi, label),
                   sample={'cast_to': dty, 'source_range': [lo, hi], 'in': fn} if hi > 255 else None)
+
+
+class GrayResult:
+    """exit hook of gray2alt: remember, as a tag of the state, the term of the value it returned (states that carry
+    different tags are never merged, so the caller's return states still know which value they were computed from)"""
+
+    def exit(self, E_, nf, rets):
+        for st, v in rets:
+            v = st.resolve(E_.expand(v))
+            if v == A.BOT or v[0] != 'E':
+                continue
+            vs = dict(v[2])
+            if 0 in vs and vs[0]:
+                x = E_.scalar(st, vs[0][0])
+                if x[0] == 'I' and x[4] is not None:
+                    st.tags = frozenset(set(st.tags) | {('G', x[4])})
+
+
+def _lin(t):
+    """integer term -> {atom: coefficient, None: constant}; NotNormal for anything that is not linear"""
+    if t is None:
+        raise terms.NotNormal('no term')
+    if t[0] == 'c':
+        if not isinstance(t[1], int):
+            raise terms.NotNormal('float constant')
+        return {None: t[1]}
+    if t[0] in ('Add', 'Sub') and len(t) == 3:
+        a, b = _lin(t[1]), _lin(t[2])
+        out = dict(a)
+        for k, v in b.items():
+            out[k] = out.get(k, 0) + (v if t[0] == 'Add' else -v)
+        return {k: v for k, v in out.items() if v != 0 or k is None}
+    if t[0] == 'Mul' and len(t) == 3:
+        a, b = _lin(t[1]), _lin(t[2])
+        if set(a) <= {None}:
+            return {k: v * a.get(None, 0) for k, v in b.items()}
+        if set(b) <= {None}:
+            return {k: v * b.get(None, 0) for k, v in a.items()}
+        raise terms.NotNormal('non-linear product')
+    if t[0] == 'trunc':
+        return _lin(t[1])
+    if t[0] in ('j', 'o', 'bits'):
+        return {t: 1}
+    raise terms.NotNormal('operator %s' % (t[0],))
+
+
+def gillham_result(rep, E, rets, label, site):
+    """P3-gillham-result: on the 100-ft path the reported altitude is exactly 100 x the value gray2alt returned - or the
+    unavailable marker (None / 0); never a clamped, truncated or rescaled value"""
+    n = 0
+    bad = []
+    for st, v in rets:
+        gs = [tg[1] for tg in st.tags if tg[0] == 'G']
+        if not gs:
+            continue
+        r = st.resolve(E.expand(v))
+        if r == A.BOT or r[0] != 'E':
+            continue
+        vs = dict(r[2])
+        if 0 not in vs:
+            continue
+        x = E.expand(vs[0][0])
+        if x[0] == 'E':
+            xs = dict(st.resolve(x)[2])
+            if 1 not in xs:
+                continue
+            x = xs[1][0]
+        x = E.scalar(st, x)
+        if x[0] != 'I':
+            continue
+        if x[1] == 0 and x[2] == 0:
+            continue                      # the unavailable marker of the 13-bit field
+        n += 1
+        ok = False
+        why = 'no symbolic form'
+        try:
+            lx = _lin(x[4])
+            for g in gs:
+                lg = _lin(g)
+                if {k: 100 * c for k, c in lg.items() if c or k is None} == {k: c for k, c in lx.items() if c or k is None} or \
+                        ({k: 100 * c for k, c in lg.items() if c} == {k: c for k, c in lx.items() if c} and 100 * lg.get(None, 0) == lx.get(None, 0)):
+                    ok = True
+            if not ok:
+                why = 'it is %s while gray2alt returned %s' % (lx, [_lin(g) for g in gs][:1])
+        except terms.NotNormal as e:
+            why = 'the reported value is not a linear function of the gray2alt result (%s): %s' % (e, str(x[4])[:160])
+        if not ok:
+            bad.append((why, x[1], x[2]))
+    rep.floor('Gillham return states of ' + label, n, 3)
+    rep.check(not bad, 'P3-gillham-result', label + '#100-times-gray2alt', site,
+              '100-ft path: a reported altitude in [%s, %s] is not 100 x the gray2alt value: %s' % (bad[0][1] if bad else '', bad[0][2] if bad else '', bad[0][0] if bad else ''),
+              sample={'entry': label, 'gillham_return_states': n, 'form': '100 * gray2alt(decode_id13(code))'})
